@@ -326,7 +326,14 @@ trait Ext {
 
 impl Ext for DataValue {
     fn add(self, other: Self) -> Self {
-        if self.is_null() { other } else { self + other }
+        // aggregates skip NULLs
+        if self.is_null() {
+            other
+        } else if other.is_null() {
+            self
+        } else {
+            self + other
+        }
     }
 
     fn or(self, other: Self) -> Self {
